@@ -62,7 +62,16 @@ def main():
         fac = rng.choice(["StlDiscreteTimeSpecification", "StlDiscreteTimeOnlineSpecification"])
         o1 = dt_obj(phi, S, vs, factory=fac, period=10, tol=1, tS=10)
         o2 = dt_obj(phi, S, vs, factory=fac, period=10, tol=1, tS=10)
-        evs = [ev_parse(1)] + ([ev_pastify(1)] if pastify else [])
+        early_reset = pastify and rng.random() < 0.3            # reset() between parse() and pastify(): harmless, too
+        if (ops_of(phi) & TIMED) and rng.random() < 0.3:
+            # bounds written with units (pastify() re-writes them in the default unit: the node names change)
+            import c08 as _c08
+            default = "s"                       # (the time-stamps of this generator are seconds)
+            written, _st = _c08.write_ast(rng, phi, 10 ** _c08.E["s"], default)
+            for o_ in (o1, o2):
+                o_.update(dt_obj(phi, S, vs, factory=fac, period=10, tol=1, tS=10, text="out = " + to_text(written, S), written=written,
+                                 units={"def": default, "pnum": 1, "pden": 1, "punit": "s"}, unit=default, set_period=[1, "s", 0.1]))
+        evs = [ev_parse(1)] + ([ev_reset(1)] if early_reset else []) + ([ev_pastify(1)] if pastify else [])
         t = 0
         for k in range(pre):
             evs.append(ev_update(t, sample_at(w1, k), 1))
